@@ -38,7 +38,9 @@ Report(r) == PrintT(ToJson(r))
 TreeOf(o) == LET p == Parse(o.e) IN IF p.st = "ok" THEN Strip(p.toks) ELSE <<>>
 Sig == LET T == TreeOf(Obs[case]) IN
        [endsep |-> LastLeafIsSep(T), treebranch |-> TreeThenBranch(T), inrep |-> TreeInRep(T),
-        treelastalt |-> TreeLastInAltBranch(T), branchinrep |-> BranchInUnboundedRep(T),
+        treelastalt |-> TreeLastInAltBranch(T), branchinrep |-> BranchInUnboundedRep(T), repbranch |-> RepThenBranch(T),
+        (* the verdict the pattern reports: only `always` patterns belong in the exhaustive program *)
+        exh |-> Obs[case].q.exh,
         implsame |-> (T # <<>> /\ ExhImpl(T) = Obs[case].q.exh)]
 Dis(what) == Report([t |-> "DISAGREE", prop |-> "C03", what |-> what, id |-> Obs[case].id, path |-> path, sig |-> Sig])
 
